@@ -1447,7 +1447,11 @@ class ServiceClass:
                     return
 
                 yield (result, None)
-        except Exception:
+        except GeneratorExit:
+            raise
+        except BaseException:
+            # As with ``attempt``, includes exceptions such as SystemExit that
+            #   would otherwise end the association's thread without a response
             yield (None, sys.exc_info())
 
 
